@@ -126,7 +126,11 @@ def report(v, f, rerun=True):
               "diag": f["diag"], "pviol": f["pviol"], "trace": sc["lines"][:f["line"]]}
     v.violation("%s at step %s (%s) of scenario seed=%s profile=%s: %s" % (sig, f["line"], f["step"], sc["seed"],
                                                                            sc["profile"], (text or "")[:600]),
-                replay_obj=replay, signature=sig, pid=pid)
+                replay_obj=replay, signature=sig,
+                # a step of the real code that the specification does not allow is reported under the property being checked
+                # (its verdict rests on the conformance of every step of its histories); violations found by the property
+                # layer keep the id of the property whose predicate failed
+                pid=(v.pid if f["violated"] == "Conforms" else pid))
     return True
 
 
